@@ -638,3 +638,13 @@ v("c18-directive-arg-types-by-text-local", "C18", "CROSS-SCHEMA-BY-NAME", U + "f
   expect="silent")
 v("c18-introspection-default-sorted", "C18", "DEFAULT-VERBATIM", T + "introspection.py",
   "        if ast:\n            return print_ast(ast)\n", "        if ast:\n            from ..utilities.sort_value_node import sort_value_node\n\n            return print_ast(sort_value_node(ast))\n")
+
+# -- round 4: C13 ------------------------------------------------------------------------------------------
+v("c13-usages-cached-by-name", "C13", "MEMO-KEY-COVER", V + "validation_context.py",
+  "        usages = self._variable_usages.get(node)\n", "        usages = self._variable_usages.get(node.name)  # type: ignore\n",
+  extra_edits=[{"file": V + "validation_context.py", "old": "            self._variable_usages[node] = usages\n", "new": "            self._variable_usages[node.name] = usages  # type: ignore\n"}])
+v("c13-iface-without-args-skips-required-check", "C13", "EMPTINESS-GUARD", T + "validate.py",
+  "            # Assert each interface field arg is implemented.\n            for arg_name, iface_arg in iface_field.args.items():\n",
+  "            if not iface_field.args:\n                continue\n            # Assert each interface field arg is implemented.\n            for arg_name, iface_arg in iface_field.args.items():\n")
+v("c13-extended-schema-inherits-assume-valid", "C13", "ASSUME-VALID-FRESH", U + "extend_schema.py",
+  "                    assume_valid=assume_valid,\n", "                    assume_valid=assume_valid or config[\"assume_valid\"],\n")
